@@ -100,13 +100,18 @@ func (ul *Upstreams) open(manager cert.TlsConfig) (err error) {
 // openStream will select a specific subprotocol stream within our session. sessionLost is set when the stream
 // could not even be opened, i.e. the physical session is gone (as opposed to the server refusing the channel).
 func (ul *Upstreams) openStream(subProtocol string) (result streams.ReadWriteCloserClosed, sessionLost bool, err error) {
-	conn, err := ul.session.OpenStream()
+	// Another logical connection may have torn the session down meanwhile (a failed re-open, Shutdown): read the field once
+	session := ul.session
+	if session == nil {
+		return nil, true, errors.Errorf("No upstream session")
+	}
+	conn, err := session.OpenStream()
 
 	if err != nil {
 		return nil, true, err
 	}
 
-	stream := streams.NewNamedStream(conn, ul.session.RemoteAddr().String())
+	stream := streams.NewNamedStream(conn, session.RemoteAddr().String())
 	err = ms.SelectProtoOrFail(fmt.Sprintf("/%s", subProtocol), stream)
 	if err != nil {
 		if e := streams.LogClose(stream); e != nil {
